@@ -188,6 +188,16 @@ func runC04(rc *RunCtx, big int) *simkit.Violation {
 		nth := t.Range(0, 60)
 		w.Faults = &simkit.FaultCfg{Plan: []*simkit.Planned{{Client: "up", Nth: nth, Kind: simkit.Kind(int(simkit.FErr) + t.Choose(2))}}}
 		w.Note("one store error at write #%d of the upload", nth)
+		if t.Bool(1, 2) {
+			// ... or at a blob write that lands while the upload's own write of a list of files is in flight (the
+			// goroutine that collects the results of the file uploads is busy)
+			w.Faults.Plan[0].Match = func(c *simkit.Call) bool {
+				return c.Op.IsWrite() && c.Bucket == d.Blob && w.AnyParked(func(o *simkit.Call) bool {
+					return o.Client == c.Client && strings.Contains(o.Key, "bundle-files-")
+				})
+			}
+			w.Note("... rather: at the first blob write landing while a list of files is being written")
+		}
 	}
 	_, ufn := d.upload(cl, d.Stores(cl), "r1", src, uo)
 	up := w.Go(cl, "upload", ufn)
